@@ -2,7 +2,10 @@
 
 package mempool
 
-import "github.com/33cn/chain33/types"
+import (
+	"github.com/33cn/chain33/queue"
+	"github.com/33cn/chain33/types"
+)
 
 // Export shim for check C22 (mempool admission). Add-only.
 
@@ -15,4 +18,29 @@ func V22Contents(mem *Mempool) (out []*types.Transaction) {
 		return true
 	})
 	return out
+}
+
+// The admission pipeline of the module (eventTx -> checkSign workers -> checkTxRemote workers ->
+// reply) one stage at a time, so that a harness can interleave the stages of several submissions
+// with other pool events. Each returns the message the stage hands on; Err() != nil = refused.
+
+// V22Stage0 is what eventTx does before queueing the submission (basic checks).
+func V22Stage0(mem *Mempool, tx *types.Transaction) *queue.Message {
+	return mem.checkTxs(&queue.Message{Data: tx})
+}
+
+// V22Stage1 is the signature stage.
+func V22Stage1(mem *Mempool, m *queue.Message) *queue.Message {
+	if m.Err() != nil {
+		return m
+	}
+	return mem.checkSign(m)
+}
+
+// V22Stage2 is the remote stage (duplicate query, optional exec check, PushTx).
+func V22Stage2(mem *Mempool, m *queue.Message) *queue.Message {
+	if m.Err() != nil {
+		return m
+	}
+	return mem.checkTxRemote(m)
 }
